@@ -80,6 +80,7 @@ def run(chk):
         chk.ob('R-class', '%s byte1=0x%02X' % (ent, v), not problems,
                chk.key(ent, 'R-class', an.entries[ent]['key'], 'byte1=%02X:%s' % (v, ';'.join(problems))),
                '; '.join(problems), site=site, nontrivial=v in (0x0E, 0x0F, 0x10, 0x00, 0xFF),
+               show='byte1 = 0x%02X (len >= 3): %s' % (v, '; '.join(show_value(lf.value, prog) for _, lf, _ in hits if lf.kind == 'return')) if v in (0x0E, 0x0F, 0x10) else None,
                detail={'leaves': [dump_leaf(lf, prog, na) for _, lf, _ in hits]})
     chk.floor('leaves of get_length', len(leaves), 2)
     chk.floor('byte-1 values classified', chk.evaluations, 256)
